@@ -15,6 +15,7 @@ Not decided: the pair count itself (the shrinking-mask loop is value level).
 import ast
 
 from vlib import q
+from vlib.pat import Pat, returned
 from vlib.front import unparse, dotted, const_value, AnchorMissing
 from vlib.shape import Shape, Space, Ix, Q, D, BoolT, StrT, NoneT, SizeOf, UNK, is_unk, Arr, Rec, Tup, ListT, DictT, B
 from vlib.viewmap import View, Op, Cat, L, K
@@ -192,8 +193,8 @@ def run(ctx):
         ctx.violated('C15.U1', r.fi, r.node, r.msg)
     if not S.reports:
         ctx.holds('C15.U1', cg, 'no index-space / dimension conflict in correlograms() (relative cluster indices, flat index components, units)', 'correlograms')
-    # units by structural + dimension reasoning
-    a = {unparse(x.targets[0]): x for x in cg.nodes(ast.Assign) if isinstance(x.targets[0], ast.Name)}
+    # ---- structural rules, written as patterns with metavariables for the local names (insensitive to renaming, temporaries, operand order)
+    P = Pat(cg)
 
     def dim_of(name):
         S2 = Shape(repo, sigs=sigs, inline_depth=2)
@@ -206,39 +207,82 @@ def run(ctx):
                 break
         S2.fi_stack.pop()
         return e2.get(name)
-    ss = dim_of('spike_samples')
+
+    def tri(rule, node, good, bad, ok_msg, bad_msg, und_msg):
+        if good:
+            ctx.holds(rule, cg, ok_msg, node)
+        elif bad:
+            ctx.violated(rule, cg, node, bad_msg)
+        else:
+            ctx.undecided(rule, cg, und_msg, node if not isinstance(node, str) else None)
+
+    # samples and bin size (units by the shape engine on the variables found by role)
+    s_samp = P.stmt('V_samples = ANY.astype(ANY)') or P.stmt('V_samples = np.floor(ANY).astype(ANY)')
+    ss = dim_of(P.name('V_samples')) if s_samp is not None else None
     if isinstance(ss, Arr) and isinstance(ss.elem, Q):
-        ctx.check(ss.elem.d() == {'samp': 1}, 'C15.U1', cg, 'spike_samples', 'spike samples = times x sampling rate (samples)', 'spike samples are %s' % ss)
+        ctx.check(ss.elem.d() == {'samp': 1}, 'C15.U1', cg, s_samp, 'spike samples = times x sampling rate (samples)', 'spike samples are %s' % ss)
     else:
-        ctx.undecided('C15.U1', cg, 'the unit of `spike_samples` was not derived (%s)' % ss)
-    bs = dim_of('binsize')
+        ctx.undecided('C15.U1', cg, 'the unit of the integer spike samples was not derived (%s)' % ss)
+    s_bin = P.stmt('V_binsize = int(ANY)')
+    bs = dim_of(P.name('V_binsize')) if s_bin is not None else None
     if isinstance(bs, Q):
-        ctx.check(bs.d() == {'samp': 1}, 'C15.U1', cg, 'binsize', 'bin size in samples = rate x bin size', 'the bin size is %s, expected samples' % bs)
+        ctx.check(bs.d() == {'samp': 1}, 'C15.U1', cg, s_bin, 'bin size in samples = rate x bin size', 'the bin size is %s, expected samples' % bs)
     else:
-        ctx.undecided('C15.U1', cg, 'the unit of `binsize` was not derived (%s)' % bs)
-    sd = [x for x in cg.nodes(ast.Assign) if unparse(x.targets[0]) == 'spike_diff_b']
-    ctx.check(bool(sd) and unparse(sd[0].value).replace(' ', '') == 'spike_diff//binsize', 'C15.U1', cg, sd[0] if sd else 'lag', 'lag in bins = floor(delay in samples / bin size in samples)',
-              'the lag is `%s`, not floor(delay / bin size)' % (unparse(sd[0].value) if sd else '?'))
-    wb = a.get('winsize_bins')
-    ctx.check(wb is not None and unparse(wb.value).replace(' ', '') in ('2*int(0.5*window_size/bin_size)+1', '2*int(.5*window_size/bin_size)+1'), 'C15.U1', cg, wb or 'winsize_bins',
-              'window in bins = 2*int(window / (2 bin)) + 1 (odd)', 'the window size in bins is `%s`' % (unparse(wb.value) if wb is not None else '?'))
+        ctx.undecided('C15.U1', cg, 'the unit of the bin size in samples was not derived (%s)' % bs)
+    # delay and lag
+    s_diff = P.stmt('V_diff = _diff_shifted(E_src, V_shift)')
+    lag_good = P.stmt('V_lag = V_diff // V_binsize') or P.stmt('V_lag = np.floor_divide(V_diff, V_binsize)')
+    lag_bad = None
+    if lag_good is None and s_diff is not None:
+        for pat_ in ('V_lag = V_diff', 'V_lag = V_diff / V_binsize', 'V_lag = V_diff % V_binsize', 'V_lag = V_diff * V_binsize', 'V_lag = V_diff // ANY'):
+            lag_bad = lag_bad or P.stmt(pat_)
+    tri('C15.U1', lag_good or lag_bad or 'lag', lag_good is not None, lag_bad is not None, 'lag in bins = floor(delay in samples / bin size in samples)',
+        'the lag is `%s`, not floor(delay / bin size in samples)' % (unparse(lag_bad.value) if lag_bad is not None else '?'), 'the statement computing the lag in bins was not recognised')
+    wb = P.stmt('V_wbins = 2 * int(0.5 * window_size / bin_size) + 1') or P.stmt('V_wbins = 2 * int(window_size / bin_size / 2) + 1') or P.stmt('V_wbins = 2 * int(window_size / (2 * bin_size)) + 1')
+    tri('C15.U1', wb or 'window', wb is not None, False, 'window in bins = 2*int(window / (2 bin)) + 1 (odd)', '', 'the window size in bins is not in a recognised form')
     ca = repo.func(CCG, '_create_correlograms_array')
-    z = [c for c in ca.calls() if dotted(c.func) == 'np.zeros']
-    ok = bool(z) and unparse(z[0].args[0]).replace(' ', '') == '(%s,%s,%s//2+1)' % (ca.params[0], ca.params[0], ca.params[1])
-    ctx.check(ok, 'C15.U1', ca, z[0] if z else '_create_correlograms_array', 'the one-sided array has (clusters, clusters, half + 1) entries', 'the one-sided array shape is `%s`' % (unparse(z[0].args[0]) if z else '?'))
-    # roles
-    rmi = [c for c in cg.calls() if dotted(c.func) == 'np.ravel_multi_index']
-    okr = False
-    if rmi and isinstance(rmi[0].args[0], ast.Tuple) and len(rmi[0].args[0].elts) == 3:
-        e0, e1, e2 = (unparse(x).replace(' ', '') for x in rmi[0].args[0].elts)
-        okr = e0 == 'spike_clusters_i[:-shift][m]' and e1 in ('spike_clusters_i[+shift:][m]', 'spike_clusters_i[shift:][m]') and e2 == 'd' and unparse(rmi[0].args[1]) == 'correlograms.shape'
-    ctx.check(okr, 'C15.U1', cg, rmi[0] if rmi else 'flat index', 'flat index = (cluster of the earlier spike, cluster of the later spike, lag) in the shape of the count array',
-              'the flat index is not (clusters[:-shift][m], clusters[shift:][m], lag): earlier / later roles or the lag are misplaced')
+    PA = Pat(ca)
+    z = PA.expr('np.zeros((%s, %s, E_half), REST)' % (ca.params[0], ca.params[0])) or PA.expr('np.zeros((%s, %s, E_half))' % (ca.params[0], ca.params[0]))
+    half = z.args[0].elts[2] if z is not None else None
+    w_ = ca.params[1]
+    good_h = half is not None and Pat().any(['%s // 2 + 1' % w_, '(%s + 1) // 2' % w_, '(%s - 1) // 2 + 1' % w_], half)
+    bad_h = half is not None and Pat().any(['%s // 2' % w_, w_, '%s // 2 - 1' % w_, '%s + 1' % w_, '(%s - 1) // 2' % w_], half)
+    if z is None:
+        ctx.undecided('C15.U1', ca, 'allocation of the one-sided count array not recognised')
+    elif good_h:
+        ctx.holds('C15.U1', ca, 'the one-sided array has (clusters, clusters, half + 1) entries', z)
+    elif bad_h:
+        ctx.violated('C15.U1', ca, z, 'the one-sided array has `%s` lag bins, expected half + 1 = winsize_bins // 2 + 1 (lags 0..half)' % unparse(half))
+    else:
+        ctx.undecided('C15.U1', ca, 'extent `%s` of the lag axis not recognised' % unparse(half), z)
+    # relabelling (D1)
+    s_rel = P.stmt('V_rel = _index_of(E_sc, E_lookup)')
+    # roles of the flat index
+    rmi = P.expr('np.ravel_multi_index((E_first, E_second, E_third), V_counts.shape)')
+    if rmi is None or s_rel is None:
+        ctx.undecided('C15.U1', cg, 'flat index np.ravel_multi_index((.., .., ..), <counts>.shape) not recognised')
+    else:
+        e0, e1, e2 = rmi.args[0].elts
+        early = lambda x: P.m('V_rel[:-V_shift][V_m]', x) or P.m('V_rel[:len(V_rel) - V_shift][V_m]', x)
+        late = lambda x: P.m('V_rel[V_shift:][V_m]', x)
+        lagv = lambda x: (P.m('V_d', x) and P.stmt('V_d = V_lag[V_m]') is not None) or P.m('V_lag[V_m]', x)
+        good = early(e0) and late(e1) and lagv(e2)
+        bad = (late(e0) and early(e1)) or (not lagv(e2) and (lagv(e0) or lagv(e1)))
+        tri('C15.U1', rmi, good, bad, 'flat index = (cluster of the earlier spike, cluster of the later spike, lag) in the shape of the count array',
+            'the flat index is `%s`: the roles (earlier cluster, later cluster, lag of later minus earlier) are misplaced' % unparse(rmi.args[0])[:110],
+            'components of the flat index not recognised')
     ds = repo.func(CCG, '_diff_shifted')
-    r = [x for x in ds.returns() if x.value is not None]
-    t = unparse(r[-1].value).replace(' ', '') if r else ''
-    ctx.check(t == '%s[%s:]-%s[:len(%s)-%s]' % (ds.params[0], ds.params[1], ds.params[0], ds.params[0], ds.params[1]), 'C15.U1', ds, r[-1] if r else '_diff_shifted',
-              'delay = later spike minus earlier spike (non-negative for sorted times)', '_diff_shifted is `%s`, not arr[steps:] - arr[:len(arr) - steps]' % t)
+    PD = Pat(ds)
+    a_, st_ = ds.params[0], ds.params[1]
+    rv = [x for _, x in returned(ds)]
+    good = bool(rv) and any(PD.any(['%s[%s:] - %s[:len(%s) - %s]' % (a_, st_, a_, a_, st_), '%s[%s:] - %s[:-%s]' % (a_, st_, a_, st_)], x) for x in rv)
+    bad = bool(rv) and any(PD.any(['%s[:len(%s) - %s] - %s[%s:]' % (a_, a_, st_, a_, st_), '%s[:-%s] - %s[%s:]' % (a_, st_, a_, st_)], x) for x in rv)
+    if good:
+        ctx.holds('C15.U1', ds, 'delay = later spike minus earlier spike (non-negative for sorted times)', rv[0])
+    elif bad:
+        ctx.violated('C15.U1', ds, rv[0], '_diff_shifted is `%s`: earlier minus later, the delays are negative' % unparse(rv[0]))
+    else:
+        ctx.undecided('C15.U1', ds, '_diff_shifted not in a recognised form', rv[0] if rv else None)
     # the delay is the difference of the INTEGER sample indices floor(t * rate): subtracting the float times first and truncating afterwards
     # can land just below the exact integer ((0.3 - 0.1) * 10 = 1.9999999999999998 -> 1) and moves the pair one bin down
     dcalls = [c for c in cg.calls() if dotted(c.func) == '_diff_shifted' and c.args]
@@ -257,76 +301,137 @@ def run(ctx):
                          'times can fall just below the exact value, and the pair is counted one bin too low after truncation' % unparse(arg))
         else:
             ctx.undecided('C15.U1', cg, 'operand of _diff_shifted (`%s`) not recognised as integer samples or float times' % unparse(src)[:60], c)
-    dd = [x for x in cg.nodes(ast.Assign) if unparse(x.targets[0]) == 'd']
-    ctx.check(bool(dd) and all(unparse(x.value).replace(' ', '') == 'spike_diff_b[m]' for x in dd), 'C15.U1', cg, dd[0] if dd else 'd', 'the lag of a pair is read with the same mask as its clusters',
-              'the lag vector is not spike_diff_b[m]')
-    inc = [c for c in cg.calls() if dotted(c.func) == '_increment']
-    ctx.check(bool(inc) and unparse(inc[0].args[0]).replace(' ', '') == 'correlograms.ravel()' and unparse(inc[0].args[1]) == 'indices', 'C15.U1', cg, inc[0] if inc else '_increment',
-              'the counts are incremented in place at the flat indices', 'the counts are not incremented at the flat indices of the count array')
+    # counts incremented with multiplicity
+    inc = P.expr('_increment(V_counts.ravel(), V_indices)') or P.expr('_increment(V_counts.reshape(-1), V_indices)')
+    fancy = [a for a in ast.walk(cg.node) if isinstance(a, ast.AugAssign) and isinstance(a.target, ast.Subscript) and const_value(a.value) == 1]
+    tri('C15.U1', inc or (fancy[0] if fancy else 'increment'), inc is not None, bool(fancy), 'the counts are incremented in place at the flat indices (a view of the count array)',
+        'the counts are incremented by `%s`: repeated flat indices are counted once' % (unparse(fancy[0]) if fancy else ''), 'increment of the counts not recognised')
     fi_inc = repo.func(CCG, '_increment')
-    t = ast.unparse(fi_inc.node)
-    ctx.check('np.bincount(indices)' in t and '[:len(bbins)] += bbins' in t, 'C15.U1', fi_inc, '_increment', 'repeated indices are all counted (bincount)', '_increment does not add the multiplicity of every index')
-    # K1
-    k1 = [x for x in cg.nodes(ast.Assign) if isinstance(x.targets[0], ast.Subscript) and const_value(x.value) is False]
-    okk = bad = False
-    if k1:
-        t = unparse(k1[0].targets[0]).replace(' ', '')
-        okk = t in ('mask[:-shift][spike_diff_b>winsize_bins//2]', 'mask[:-shift][spike_diff_b>(winsize_bins//2)]')
-        bad = '>=' in t or 'winsize_bins//2-1' in t or 'winsize_bins]' in t
-    if okk:
-        ctx.holds('C15.K1', cg, 'a pair is masked out only when its lag exceeds the half window (strict >)', k1[0])
-    elif bad or not k1:
-        ctx.violated('C15.K1', cg, k1[0] if k1 else 'mask', 'pairs are dropped on `%s`: pairs whose lag equals the half window (the edge bin) must be kept, nothing else dropped' % (unparse(k1[0].targets[0]) if k1 else 'no mask update'))
+    PI = Pat(fi_inc)
+    bc_ = PI.stmt('V_bb = np.bincount(ANY)') or PI.stmt('V_bb = np.bincount(ANY, REST)')
+    add_ = PI.stmts('ANY[:len(V_bb)] += V_bb') if bc_ is not None else []
+    fancy_i = [a for a in ast.walk(fi_inc.node) if isinstance(a, ast.AugAssign) and isinstance(a.target, ast.Subscript) and const_value(a.value) == 1]
+    uat = [c for c in fi_inc.calls() if dotted(c.func) == 'np.add.at']
+    if (bc_ is not None and add_) or uat:
+        ctx.holds('C15.U1', fi_inc, 'repeated indices are all counted (bincount / np.add.at)', bc_ or uat[0])
+    elif fancy_i:
+        ctx.violated('C15.U1', fi_inc, fancy_i[0], '_increment uses `%s`: NumPy applies a fancy-indexed increment once per distinct index, repeated indices are lost' % unparse(fancy_i[0]))
     else:
-        ctx.undecided('C15.K1', cg, 'edge test `%s` not recognised' % unparse(k1[0].targets[0]), k1[0])
-    wh = [w for w in cg.nodes(ast.While)]
-    ctx.check(bool(wh) and unparse(wh[0].test).replace(' ', '') == 'mask[:-shift].any()', 'C15.K1', cg, wh[0].test if wh else 'loop', 'the shift grows while some spike still has a partner inside the window',
-              'the loop condition is `%s`' % (unparse(wh[0].test) if wh else '?'))
-    sh = [x for x in cg.nodes(ast.AugAssign) if unparse(x.target) == 'shift']
-    init = a.get('shift')
-    ctx.check(bool(sh) and const_value(sh[0].value) == 1 and init is not None and const_value(init.value) == 1, 'C15.K1', cg, sh[0] if sh else 'shift', 'shifts 1, 2, 3, ... are all visited', 'the shift does not run through 1, 2, 3, ...')
+        ctx.undecided('C15.U1', fi_inc, '_increment not in a recognised form')
+    # K1
+    k_good = P.stmt('V_mask[:-V_shift][V_lag > V_wbins // 2] = False')
+    k_bad = None
+    if k_good is None:
+        for pat_ in ('V_mask[:-V_shift][V_lag >= V_wbins // 2] = False', 'V_mask[:-V_shift][V_lag > V_wbins // 2 - 1] = False', 'V_mask[:-V_shift][V_lag > V_wbins] = False',
+                     'V_mask[:-V_shift][V_lag >= V_wbins] = False', 'V_mask[:-V_shift][V_lag > V_wbins // 2 + 1] = False'):
+            k_bad = k_bad or P.stmt(pat_)
+    tri('C15.K1', k_good or k_bad or 'mask', k_good is not None, k_bad is not None, 'a pair is masked out only when its lag exceeds the half window (strict >)',
+        'pairs are dropped on `%s`: pairs whose lag equals the half window (the edge bin) must be kept, nothing else dropped' % (unparse(k_bad.targets[0]) if k_bad is not None else ''),
+        'the edge test of the mask update was not recognised')
+    wh = cg.nodes(ast.While)
+    w_good = bool(wh) and (P.m('V_mask[:-V_shift].any()', wh[0].test) or P.m('np.any(V_mask[:-V_shift])', wh[0].test))
+    w_bad = False
+    if wh and not w_good and isinstance(wh[0].test, ast.BoolOp) and isinstance(wh[0].test.op, ast.And):
+        # the mask test conjoined with another bound: the search can stop while some spike still has a partner inside the window
+        w_bad = any(P.m('V_mask[:-V_shift].any()', v) or P.m('np.any(V_mask[:-V_shift])', v) for v in wh[0].test.values)
+    tri('C15.K1', wh[0].test if wh else 'loop', w_good, w_bad, 'the shift grows while some spike still has a partner inside the window',
+        'the loop stops on `%s`: an extra bound ends the search while spikes still have partners inside the window (spikes `shift` positions apart can be 0 samples apart '
+        'when times repeat)' % (unparse(wh[0].test) if wh else ''), 'loop condition not recognised')
+    sh = [x for x in cg.nodes(ast.AugAssign) if isinstance(x.target, ast.Name) and x.target.id == (P.name('V_shift') or '') and isinstance(x.op, ast.Add)]
+    init = P.stmt('V_shift = 1')
+    step = const_value(sh[0].value) if sh else None
+    tri('C15.K1', sh[0] if sh else 'shift', bool(sh) and step == 1 and init is not None, bool(sh) and isinstance(step, int) and step != 1 or (bool(sh) and init is None and P.stmt('V_shift = 0') is not None),
+        'shifts 1, 2, 3, ... are all visited', 'the shift does not run through 1, 2, 3, ... (step %s)' % step, 'progression of the shift not recognised')
     # D1
-    cl = [i for i in cg.nodes(ast.If) if unparse(i.test).replace(' ', '') == 'cluster_idsisNone']
-    okd = False
-    if cl:
-        b = {unparse(x.targets[0]): unparse(x.value).replace(' ', '') for x in cl[0].body if isinstance(x, ast.Assign)}
-        o = {unparse(x.targets[0]): unparse(x.value).replace(' ', '') for x in cl[0].orelse if isinstance(x, ast.Assign)}
-        okd = b.get('clusters') == '_unique(spike_clusters)' and o.get('clusters') in ('_as_array(cluster_ids)', 'np.asarray(cluster_ids)')
-    ctx.check(okd, 'C15.D1', cg, cl[0] if cl else 'cluster list', "the cluster axis follows the caller's cluster_ids in the caller's order (present ids when none is given)",
-              'the cluster list is not the caller\'s list in the caller\'s order')
-    rel = a.get('spike_clusters_i')
-    ctx.check(rel is not None and unparse(rel.value).replace(' ', '') == '_index_of(spike_clusters,clusters)', 'C15.D1', cg, rel or 'relabel', 'spikes are relabelled by their position in that list',
-              'spikes are not relabelled by _index_of(spike_clusters, clusters)')
-    nc = a.get('n_clusters')
-    ctx.check(nc is not None and unparse(nc.value) == 'len(clusters)', 'C15.D1', cg, nc or 'n_clusters', 'the array has one row/column per listed cluster', 'n_clusters is not len(clusters)')
-    sym = [r_ for r_ in cg.returns() if isinstance(r_.value, ast.Call) and dotted(r_.value.func) == '_symmetrize_correlograms']
-    ctx.check(bool(sym) and any(isinstance(x, ast.If) and unparse(x.test) == 'symmetrize' for x in cg.ancestors(sym[0])), 'C15.D1', cg, sym[0] if sym else 'return',
-              'the symmetrised array is returned when requested, the one-sided one otherwise', 'symmetrize does not select between the symmetrised and the one-sided result')
+    cl = [i for i in cg.nodes(ast.If) if Pat().any(['cluster_ids is None', 'cluster_ids is not None', 'not cluster_ids is None', 'not (cluster_ids is not None)'], i.test)]
+    if not cl:
+        ctx.undecided('C15.D1', cg, 'the branch on `cluster_ids is None` was not found')
+    else:
+        neg = Pat().any(['cluster_ids is not None', 'not cluster_ids is None'], cl[0].test)
+        none_b, given_b = (cl[0].orelse, cl[0].body) if neg else (cl[0].body, cl[0].orelse)
+        gv = [a for a in given_b if isinstance(a, ast.Assign)]
+        nv = [a for a in none_b if isinstance(a, ast.Assign)]
+        g_good = any(Pat().any(['V_c = _as_array(cluster_ids)', 'V_c = np.asarray(cluster_ids)', 'V_c = np.array(cluster_ids)', 'V_c = cluster_ids'], a, stmt=True) for a in gv)
+        g_bad = any(isinstance(n, ast.Call) and (dotted(n.func) or '').split('.')[-1] in ('sort', 'sorted', 'unique', '_unique', 'set') for a in gv for n in ast.walk(a.value))
+        n_good = any(Pat().any(['V_c = _unique(spike_clusters)', 'V_c = np.unique(spike_clusters)'], a, stmt=True) for a in nv)
+        tri('C15.D1', cl[0], g_good and n_good, g_bad, "the cluster axis follows the caller's cluster_ids in the caller's order (present ids when none is given)",
+            "the caller's cluster list is re-ordered / de-duplicated before use: the output axes no longer follow the caller's order", 'cluster-list selection not recognised')
+    if s_rel is None:
+        ctx.undecided('C15.D1', cg, 'relabelling by _index_of(...) not found')
+    else:
+        look = s_rel.value.args[1]
+        lx = cg.expand(look)
+        clname = None
+        for a in (cl[0].body + cl[0].orelse if cl else []):
+            if isinstance(a, ast.Assign) and isinstance(a.targets[0], ast.Name):
+                clname = a.targets[0].id
+        good = isinstance(look, ast.Name) and look.id == clname and Pat().m('spike_clusters', s_rel.value.args[0])
+        bad = any(isinstance(n, ast.Call) and (dotted(n.func) or '').split('.')[-1] in ('_unique', 'unique', 'sort', 'sorted') for n in ast.walk(lx)) and not good
+        tri('C15.D1', s_rel, good, bad, 'spikes are relabelled by their position in that list', 'spikes are relabelled against `%s`, not against the caller-ordered cluster list' % unparse(look),
+            'lookup table of the relabelling not recognised')
+        nc = P.stmt('V_nc = len(%s)' % clname) or P.stmt('V_nc = %s.shape[0]' % clname) or P.stmt('V_nc = %s.size' % clname) if clname else None
+        nc_any = P.stmt('V_nc2 = len(ANY)')
+        tri('C15.D1', nc or nc_any or 'n_clusters', nc is not None, clname is not None and nc is None and nc_any is not None, 'the array has one row/column per listed cluster',
+            'the number of clusters is `%s`, not the length of the cluster list' % (unparse(nc_any.value) if nc_any is not None else ''), 'the number of clusters was not recognised')
+    sym = [(r_, x) for r_, x in returned(cg) if isinstance(x, ast.Call) and dotted(x.func) == '_symmetrize_correlograms']
+    plain = [(r_, x) for r_, x in returned(cg) if not (isinstance(x, ast.Call) and dotted(x.func) == '_symmetrize_correlograms')]
+    under = bool(sym) and any(isinstance(x, ast.If) and Pat().any(['symmetrize', 'symmetrize is True', 'not symmetrize'], x.test) for x in cg.ancestors(sym[0][0]))
+    tri('C15.D1', sym[0][0] if sym else 'return', under and bool(plain), bool(returned(cg)) and (not sym or not plain),
+        'the symmetrised array is returned when requested, the one-sided one otherwise', 'symmetrize does not select between the symmetrised and the one-sided result',
+        'selection between the symmetrised and the one-sided result not recognised')
     from obligations.shape_tables import check_index_of
     check_index_of(ctx, 'C15.D1')
     # ---- A1
     a1_symmetrize(ctx)
     # ---- U2 firing rate
     fr = repo.func(CCG, 'firing_rate')
-    r = [x for x in fr.returns() if x.value is not None]
-    t = unparse(r[-1].value).replace(' ', '') if r else ''
-    ctx.check(t in ('bc*np.c_[bc]*(bin_size/(durationor1.0))', 'bc*np.c_[bc]*(bin_size/(durationor1))', 'np.outer(bc,bc)*(bin_size/(durationor1.0))', 'np.outer(bc,bc)*bin_size/(durationor1.0)'),
-              'C15.U2', fr, r[-1] if r else 'firing_rate', 'normaliser = (counts outer counts) x bin / duration', 'the firing-rate normaliser is `%s`' % t)
+    PF = Pat(fr)
+    rv = [x for _, x in returned(fr)]
+    goods = ['V_bc * np.c_[V_bc] * (bin_size / (duration or 1.0))', 'V_bc * np.c_[V_bc] * (bin_size / (duration or 1))', 'np.outer(V_bc, V_bc) * (bin_size / (duration or 1.0))',
+             'np.outer(V_bc, V_bc) * bin_size / (duration or 1.0)', 'V_bc[:, None] * V_bc * (bin_size / (duration or 1.0))', 'V_bc * V_bc[:, None] * (bin_size / (duration or 1.0))']
+    bads = ['V_bc * V_bc * (bin_size / (duration or 1.0))', 'V_bc * np.c_[V_bc] * ((duration or 1.0) / bin_size)', 'V_bc * np.c_[V_bc] * bin_size', 'V_bc * np.c_[V_bc] * (bin_size * (duration or 1.0))',
+            'V_bc * np.c_[V_bc]', 'V_bc * (bin_size / (duration or 1.0))']
+    # the normaliser may be written on the raw name of the counts or through temporaries: match the unexpanded and the expanded return
+    raw = [r_.value for r_ in fr.returns() if r_.value is not None]
+    cand = raw + rv
+    g = any(PF.any(goods, x) for x in cand)
+    b_ = not g and any(PF.any(bads, x) for x in cand)
+    if g:
+        ctx.holds('C15.U2', fr, 'normaliser = (counts outer counts) x bin / duration', raw[-1])
+    elif b_:
+        ctx.violated('C15.U2', fr, raw[-1], 'the firing-rate normaliser is `%s`, not (counts outer counts) x bin_size / duration' % unparse(raw[-1]))
+    else:
+        ctx.undecided('C15.U2', fr, 'the firing-rate normaliser is not in a recognised form', raw[-1] if raw else None)
     S = Shape(repo, sigs=sigs, inline_depth=2)
     res = S.result(fr, {'spike_clusters': Arr((Spike,), Ix(Clu)), 'cluster_ids': Arr((ReqClu,), Ix(Clu)), 'bin_size': SEC, 'duration': SEC})
     for r_ in S.reports:
         ctx.violated('C15.U2', r_.fi, r_.node, '[firing_rate] %s' % r_.msg)
     if isinstance(res, Arr) and isinstance(res.elem, Q):
         ctx.check(res.elem.d() == {'cnt': 2}, 'C15.U2', fr, 'firing_rate dimension', 'counts^2 x (s / s): a pair count per bin', 'the normaliser has dimension %s, expected count^2 (bin / duration is a pure ratio)' % res.elem)
-    pad = [i for i in fr.nodes(ast.If) if unparse(i.test).replace(' ', '') == 'len(bc)<len(cluster_ids)']
-    okp = False
-    if pad:
-        b = ast.unparse(pad[0])
-        okp = 'np.concatenate((bc, np.zeros(n' in b and 'n = len(cluster_ids) - len(bc)' in b
-    ctx.check(okp, 'C15.U2', fr, pad[0] if pad else 'padding', 'counts of trailing ids without spikes are padded with zeros', 'counts are not zero-padded up to the number of requested ids')
-    rl = [x for x in fr.nodes(ast.Assign) if unparse(x.targets[0]) == 'spike_clusters_i']
-    ctx.check(bool(rl) and unparse(rl[0].value).replace(' ', '') == '_index_of(spike_clusters,cluster_ids)', 'C15.U2', fr, rl[0] if rl else 'relabel', "counts follow the caller's cluster order",
-              "counts do not follow the caller's cluster order")
+    bcs = PF.stmt('V_bc = np.bincount(E_rel)') or PF.stmt('V_bc = np.bincount(E_rel, REST)')
+    minlen = bcs is not None and q.kwarg(bcs.value, 'minlength') is not None and Pat().any(['len(cluster_ids)', 'cluster_ids.size', 'cluster_ids.shape[0]'], q.kwarg(bcs.value, 'minlength'))
+    pad = [i for i in fr.nodes(ast.If) if PF.m('len(V_bc) < len(cluster_ids)', i.test)]
+    okp = bool(pad) and any(isinstance(c, ast.Call) and dotted(c.func) in ('np.concatenate', 'np.pad', 'np.append', 'np.hstack', 'np.r_') for c in ast.walk(pad[0])) and \
+        any(isinstance(c, ast.Call) and dotted(c.func) == 'np.zeros' for c in ast.walk(pad[0]))
+    if okp or minlen:
+        ctx.holds('C15.U2', fr, 'counts of trailing ids without spikes are padded with zeros', pad[0] if pad else bcs)
+    elif bcs is not None and not pad and not minlen and not any(isinstance(c, ast.Call) and dotted(c.func) in ('np.pad', 'np.concatenate') for c in fr.calls()):
+        ctx.violated('C15.U2', fr, bcs, 'np.bincount without padding: when the last requested ids have no spikes the count vector is shorter than the list of ids')
+    else:
+        ctx.undecided('C15.U2', fr, 'zero padding of the per-cluster counts not recognised')
+    rl = PF.stmt('V_rel = _index_of(spike_clusters, E_lookup)')
+    if rl is None:
+        ctx.undecided('C15.U2', fr, 'relabelling of the spikes in firing_rate not recognised')
+    else:
+        look = rl.value.args[1]
+        good = Pat().m('cluster_ids', look)
+        bad = any(isinstance(n, ast.Call) and (dotted(n.func) or '').split('.')[-1] in ('_unique', 'unique', 'sort', 'sorted') for n in ast.walk(fr.expand(look))) and not good
+        if good:
+            ctx.holds('C15.U2', fr, "counts follow the caller's cluster order", rl)
+        elif bad:
+            ctx.violated('C15.U2', fr, rl, "counts are indexed against `%s`, not against the caller's cluster_ids" % unparse(look))
+        else:
+            ctx.undecided('C15.U2', fr, 'lookup table of the counts not recognised', rl)
 
 
 LEVEL_TEXT = ('Static check of the correlogram code: unit and index-space typing of correlograms() and firing_rate(), role rules for the flat '
